@@ -31,21 +31,27 @@ CARRIERS = {
 
 class Holder(Process):
     """Declares the variables the timeline drives; contributes nothing."""
-    defaults = {'names': ['x', 'y'], 'carrier': 'int'}
+    defaults = {'names': ['x', 'y'], 'carrier': 'int', 'count': False}
 
     def ports_schema(self):
         mk = CARRIERS[self.parameters['carrier']][0]
-        return {'vars': {n: {'_default': mk(0), '_emit': True, '_updater': 'set'}
+        upd = 'accumulate' if self.parameters['count'] else 'set'
+        return {'vars': {n: {'_default': mk(0), '_emit': True, '_updater': upd}
                          for n in self.parameters['names']}}
 
     def next_update(self, timestep, states):
+        if self.parameters['count']:
+            # +100 per tick: the hundreds count the ticks since the variable was
+            # last set by an event (an event that fired twice resets the count)
+            return {'vars': {n: 100 for n in self.parameters['names']}}
         return {}
 
 
 def run_case(case, via_add_timeline, carrier='int'):
     mk, unmk = CARRIERS[carrier]
     events = [(e['t'], {('vars', e['var']): mk(i + 1)}) for i, e in enumerate(case['tl'])]
-    holder = Holder({'time_step': case['ts'], 'carrier': carrier})
+    split = carrier == 'int' and not via_add_timeline and case['run'] > case['ts']
+    holder = Holder({'time_step': case['ts'], 'carrier': carrier, 'count': split})
     if via_add_timeline:
         processes = {'holder': holder}
         topology = {'holder': {'vars': ('vars',)}}
@@ -60,8 +66,28 @@ def run_case(case, via_add_timeline, carrier='int'):
             topology['timeline'] = {'global': ('global',)}
     eng = Engine(processes=processes, topology=topology, display_info=False,
                  emitter='timeseries')
-    eng.update(case['run'])
+    if split:
+        # the run in two calls, with the process asked for its ports in between
+        # (a harmless question: what has fired must not fire again)
+        first = case['ts'] * max(1, (case['run'] // case['ts']) // 2)
+        eng.update(first)
+        processes['timeline'].ports()
+        processes['timeline'].ports_schema()
+        eng.update(case['run'] - first)
+    else:
+        eng.update(case['run'])
     data = eng.emitter.get_data()
+    if split:
+        # the ticks counted since the last set must grow by one per tick while no
+        # event sets the variable
+        times = sorted(data)
+        for a, b2 in zip(times, times[1:]):
+            for k in data[a].get('vars', {}):
+                va, vb = data[a]['vars'][k], data[b2]['vars'][k]
+                if va % 100 == vb % 100 and vb // 100 != va // 100 + 1 and b2 > 0:
+                    return {float(b2): {k: 'REFIRED(%r->%r)' % (va, vb)}}
+        return {float(t): {k: v % 100 for k, v in d.get('vars', {}).items()}
+                for t, d in data.items()}
     return {float(t): {k: unmk(v) for k, v in d.get('vars', {}).items()}
             for t, d in data.items()}
 
